@@ -314,6 +314,22 @@ type cfg struct {
 	Impls    []string
 	Depth    int
 	Validate bool
+	Narrow   bool // reduced alphabet (one data value, whole-file reads, no List) explored deeper
+}
+
+// inNarrow selects the reduced alphabet used for the deep search.
+func inNarrow(o Op) bool {
+	switch o.K {
+	case "Append", "AtomicCreate":
+		return o.Data == 1
+	case "ReadAt":
+		return o.Off == "0" && o.Len == "L+1"
+	case "List":
+		return false
+	case "Link":
+		return o.N != o.N2 || o.D != o.D2
+	}
+	return true
 }
 
 var tmpRoot string
@@ -323,6 +339,9 @@ func apply(c cfg, path []int) bfs.Result {
 	ms := newM()
 	wants := make([]want, len(path))
 	for i, oi := range path {
+		if c.Narrow && !inNarrow(alphabet[oi]) {
+			return bfs.Result{Skip: true}
+		}
 		en, w := ms.step(alphabet[oi])
 		if !en {
 			return bfs.Result{Skip: true}
@@ -433,49 +452,51 @@ func main() {
 		fmt.Println("replay: property holds on this history")
 		return
 	}
-	depth := 3
+	depth, deep := 3, 5
 	if *tier == "thorough" {
-		depth = 5
+		depth, deep = 5, 8
 	}
-	c := cfg{Impls: fsh.ImplNames, Depth: depth, Validate: true}
-	cj, _ := json.Marshal(c)
 	acc := ev.NewAcc()
-	st, fails, err := bfs.SearchParallel(16, len(alphabet), depth, start.Add(40*time.Minute), 400, []string{"-worker", string(cj)}, nil)
-	if err != nil {
-		fmt.Fprintln(os.Stderr, "harness error:", err)
-		os.Exit(3)
-	}
-	acc.Add("states", st.States)
-	acc.Add("transitions", st.Transitions)
-	acc.SetMax("max_depth", int64(st.MaxDepth))
-	acc.Add("traces_validated_against_impl", st.Transitions)
-	for o := range st.Outcomes {
-		acc.Set("operation_kinds_exercised", o)
-	}
-	if st.Capped == "internal deadline" {
-		acc.NotExhaustive("internal deadline")
-	}
-	acc.Note(fmt.Sprintf("search ended by: fixpoint=%v cap=%q at depth %d (all valid histories up to that length covered)", st.Fixpoint, st.Capped, depth))
-	for _, f := range fails {
-		var names []string
-		for _, oi := range f.Path {
-			names = append(names, alphabet[oi].String())
-		}
-		if strings.Contains(f.Err.Error(), "HARNESS") {
-			fmt.Fprintln(os.Stderr, "harness error:", strings.Join(names, "; "), f.Err)
+	var c cfg
+	for _, c = range []cfg{{Impls: fsh.ImplNames, Depth: depth, Validate: true}, {Impls: fsh.ImplNames, Depth: deep, Validate: true, Narrow: true}} {
+		cj, _ := json.Marshal(c)
+		st, fails, err := bfs.SearchParallel(16, len(alphabet), c.Depth, start.Add(40*time.Minute), 400, []string{"-worker", string(cj)}, nil)
+		if err != nil {
+			fmt.Fprintln(os.Stderr, "harness error:", err)
 			os.Exit(3)
 		}
-		impl := strings.SplitN(f.Err.Error(), ":", 2)[0]
-		acc.Violate(ev.Violation{
-			Key:    fmt.Sprintf("C12/%s/%s/%s", impl, failKind(f.Err.Error()), strings.Join(names, ";")),
-			Msg:    fmt.Sprintf("history [%s]: %v", strings.Join(names, "; "), f.Err),
-			Replay: map[string]any{"cfg": c, "path": f.Path, "ops": names},
-		})
+		acc.Add("states", st.States)
+		acc.Add("transitions", st.Transitions)
+		acc.SetMax("max_depth", int64(st.MaxDepth))
+		acc.Add("traces_validated_against_impl", st.Transitions)
+		for o := range st.Outcomes {
+			acc.Set("operation_kinds_exercised", o)
+		}
+		if st.Capped == "internal deadline" {
+			acc.NotExhaustive("internal deadline")
+		}
+		acc.Note(fmt.Sprintf("alphabet narrow=%v: search ended by fixpoint=%v cap=%q at depth %d with %d states (all valid histories up to that length covered)", c.Narrow, st.Fixpoint, st.Capped, c.Depth, st.States))
+		for _, f := range fails {
+			var names []string
+			for _, oi := range f.Path {
+				names = append(names, alphabet[oi].String())
+			}
+			if strings.Contains(f.Err.Error(), "HARNESS") {
+				fmt.Fprintln(os.Stderr, "harness error:", strings.Join(names, "; "), f.Err)
+				os.Exit(3)
+			}
+			impl := strings.SplitN(f.Err.Error(), ":", 2)[0]
+			acc.Violate(ev.Violation{
+				Key:    fmt.Sprintf("C12/%s/%s/%s", impl, failKind(f.Err.Error()), strings.Join(names, ";")),
+				Msg:    fmt.Sprintf("history [%s]: %v", strings.Join(names, "; "), f.Err),
+				Replay: map[string]any{"cfg": c, "path": f.Path, "ops": names},
+			})
+		}
 	}
-	acc.Sample(map[string]any{"alphabet_size": len(alphabet), "example_ops": []string{alphabet[0].String(), alphabet[5].String(), alphabet[30].String(), alphabet[100].String()}, "depth": depth, "impls": c.Impls}, 3)
+	acc.Sample(map[string]any{"alphabet_size": len(alphabet), "example_ops": []string{alphabet[0].String(), alphabet[5].String(), alphabet[30].String(), alphabet[100].String()}, "depth_full_alphabet": depth, "depth_narrow_alphabet": deep, "impls": c.Impls}, 3)
 	os.Exit(acc.Done(ev.Finish{
 		Prop: "C12", Tier: *tier, Level: "model_checking", Start: start,
-		Rule:        "explicit-state BFS over valid histories of Create, Append, Close, Open, ReadAt (offsets 0,1,L-1,L,L+1 x lengths 0,1,L,L+1), Delete, Link, AtomicCreate, List on dirs {d1,d2}, names {f,g}, data {\"\",\"a\",\"bc\",5000 bytes}, 3 handle slots; an operation is enabled only when its documented precondition holds in the reference model; every history replayed on fresh real MemFs and DirFs (over simunix), directly and through the package-level wrappers; passed buffers and returned slices are overwritten by the caller after each call; after the last operation its result, every open read handle and a full read-back of both directories are compared with the reference model; the simunix trace of every history is replayed on the real kernel",
+		Rule:        "explicit-state BFS over valid histories of Create, Append, Close, Open, ReadAt (offsets 0,1,L-1,L,L+1 x lengths 0,1,L,L+1), Delete, Link, AtomicCreate, List on dirs {d1,d2}, names {f,g}, data {\"\",\"a\",\"bc\",5000 bytes}, 3 handle slots (full alphabet to the first depth bound; a reduced alphabet -- one data value, whole-file reads, no List -- to a deeper bound); an operation is enabled only when its documented precondition holds in the reference model; every history replayed on fresh real MemFs and DirFs (over simunix), directly and through the package-level wrappers; passed buffers and returned slices are overwritten by the caller after each call; after the last operation its result, every open read handle and a full read-back of both directories are compared with the reference model; the simunix trace of every history is replayed on the real kernel",
 		Assumptions: []string{"simunix models the kernel for DirFs (validated per history by replay on the real kernel)", "state identity = reference-model state (names, link structure, contents, slots); merging is justified by the full read-back equality checked on every transition"},
 	}))
 }
